@@ -118,7 +118,7 @@ class Session(BusSession):
         self.pids = pids
         return out
 
-    def settle(self, want_gone=None, want_started=None):
+    def settle(self, want_gone=None, want_started=None, want_closed=None):
         """Alternate loop iterations with short sleeps until child-process effects have been consumed."""
         deadline = time.time() + 3.0
         while time.time() < deadline:
@@ -132,6 +132,9 @@ class Session(BusSession):
             if want_gone is not None:
                 d = self.bus.dump()
                 ok = ok and not any(('pending %s ' % n.decode()) in d for n in want_gone)
+            if want_closed is not None:
+                # the bus has noticed the disconnect (child-process events can interleave with it)
+                ok = ok and ('conn @%s ' % want_closed) not in self.impl_key()
             if ok:
                 return True
             time.sleep(0.004)
@@ -285,7 +288,7 @@ class Session(BusSession):
         elif kind == 'disc':
             l = op[1]
             self.close_slot(l)
-            self.settle()
+            self.settle(want_closed=l)
             # its requests stay in the pending activation (inert): nothing is owed to a sender that is gone
         self.judge(want, out, desc)
         if not out:
